@@ -4,6 +4,7 @@ import (
 	"bytes"
 	"encoding/json"
 	"errors"
+	"fmt"
 )
 
 func (v *VMValue) ToJSONRaw(save map[*VMValue]bool) ([]byte, error) {
@@ -221,6 +222,11 @@ func (v *VMValue) UnmarshalJSON(input []byte) error {
 		}
 		err := json.Unmarshal(input, &v1)
 		if err == nil {
+			for _, i := range v1.Value.List {
+				if i == nil {
+					return errors.New("值错误: 反序列化时数组元素不能为null")
+				}
+			}
 			v.Value = NewArrayValRaw(v1.Value.List).Value
 		}
 		return err
@@ -261,9 +267,12 @@ func (v *VMValue) UnmarshalJSON(input []byte) error {
 		}
 		err := json.Unmarshal(input, &v1)
 		if err == nil {
-			if val, ok := builtinValues[v1.Value.Name]; ok {
-				v.Value = val.Value
+			val, ok := builtinValues[v1.Value.Name]
+			if !ok || val.TypeId != VMTypeNativeFunction {
+				// 否则会得到一个 Value 为 nil 的函数值，使用时会崩溃
+				return fmt.Errorf("值错误: 反序列化时遇到未知的内置函数 %s", v1.Value.Name)
 			}
+			v.Value = val.Value
 			return nil
 		}
 		return err
@@ -282,7 +291,8 @@ func (v *VMValue) UnmarshalJSON(input []byte) error {
 		}
 		return err
 	}
-	return nil
+	// 包括内部类型 vmTypeLocal / vmTypeGlobal，它们不应出现在数据中
+	return fmt.Errorf("值错误: 反序列化时遇到不支持的类型 %d", v0.TypeId)
 }
 
 func VMValueFromJSON(data []byte) (*VMValue, error) {
